@@ -300,10 +300,27 @@ def run(ctx):
     fors = [n for n in own_nodes(util.node) if isinstance(n, ast.For)]
     if len(fors) != 1 or ast.unparse(fors[0].iter) != util.params[1]:
         raise AnalysisError("remove_completed_operations: loop not recognised")
+    if not any(isinstance(n, ast.Call) and isinstance(n.func, ast.Attribute) and n.func.attr == "remove_node" for n in ast.walk(fors[0])):
+        # the guarded removal may be a helper shared with the machine / job nodes
+        util_f = ctx.norm.flat(util, depth=3)
+        ff_ = [n for n in own_nodes(util_f.node) if isinstance(n, ast.For)]
+        if len(ff_) == 1:
+            util, fors = util_f, ff_
     ids = [n for n in ast.walk(fors[0]) if isinstance(n, ast.Assign) and ast.unparse(n.value).endswith(".operation_id")]
     rmc = [n for n in ast.walk(fors[0]) if isinstance(n, ast.Call) and isinstance(n.func, ast.Attribute) and n.func.attr == "remove_node"]
     guard = [n for n in ast.walk(fors[0]) if isinstance(n, ast.If) and "removed_nodes" in ast.unparse(n.test) or (isinstance(n, ast.If) and "is_removed" in ast.unparse(n.test))]
-    if ids and len(rmc) == 1 and guard and ast.unparse(rmc[0].args[0]) == ast.unparse(ids[0].targets[0]):
+    lv_ = fors[0].target.id if isinstance(fors[0].target, ast.Name) else None
+
+    def _is_op_id(e):
+        """the expression is the loop operation's id (possibly `x.node_id if isinstance(x, Node) else x` with x that id)"""
+        x = ctx.norm.xexpr(util, e)
+        if isinstance(x, ast.IfExp) and "isinstance" in ast.unparse(x.test):
+            x = x.orelse
+        return lv_ is not None and ast.unparse(x) == f"{lv_}.operation_id"
+
+    if len(rmc) == 1 and guard and rmc[0].args and (
+        (ids and ast.unparse(rmc[0].args[0]) == ast.unparse(ids[0].targets[0])) or _is_op_id(rmc[0].args[0])
+    ):
         chk.ok("R17.c", util.qualname, util.loc(), "each completed operation's node (id = operation id) removed once")
     elif not guard:
         chk.violation("R17.c", util, rmc[0] if rmc else None, "already removed nodes are removed again (KeyError / isolated sweep repeated)")
@@ -397,6 +414,13 @@ def run(ctx):
 
     leng = ctx.engine(relevant=lambda e: e.kind in ("branch", "return"), max_depth=0, unroll=1)
 
+    def _pinned(t):
+        # a look-up step is a helper the pinned surface does not name
+        from ..baseline_api import PUBLIC_CALLABLES
+
+        key = (t.cls.name + "." if t.cls is not None else "") + t.name
+        return not t.name.startswith("_") and key in PUBLIC_CALLABLES
+
     def verify(fn, recv, pid, depth=0):
         """(number of node-returning paths, first unverified (path, value) or None)
         for ``fn`` looking up the id held by its parameter ``pid``."""
@@ -432,7 +456,7 @@ def run(ctx):
                     if isinstance(v, ast.Constant) and v.value is None:
                         continue
                     ts = ctx.res.callees(fn, v, recv)[0] if isinstance(v, ast.Call) else []
-                    if len(ts) != 1 or not ts[0].name.startswith("_") or isinstance(ts[0].node, ast.Lambda):
+                    if len(ts) != 1 or _pinned(ts[0]) or isinstance(ts[0].node, ast.Lambda):
                         steps = None
                         break
                     t = ts[0]
